@@ -17,7 +17,8 @@ CLAIMS["C11"] = dict(
     text="Every interleaving (iterative context bounding, k preemptions plus one spurious weak-CAS failure) of 1..3 producers and one consumer on the real "
          "CircularBuffer/AtomicUniquePtr for capacities 1..3, and of 2..3 threads on the real SpinLockMutex, is executed under a controlled scheduler; the "
          "oracle checks exactly-once consumption, per-producer order, legitimacy of every failed Add, the capacity invariant at every scheduling point, "
-         "instance counts, mutual exclusion and termination of lock().",
+         "instance counts, mutual exclusion and termination of lock(). Consumer programs: drain, one at a time, Peek-sized, Clear, and two-at-a-time on a pre-rotated "
+         "buffer (Consume(n) with 1 < n < size across the wrap-around seam).",
     note=SCHED_NOTE)
 
 CLAIMS["C01"] = dict(
@@ -26,8 +27,10 @@ CLAIMS["C01"] = dict(
     text="The unmodified BatchSpanProcessor and BatchLogRecordProcessor sources (with the real CircularBuffer) run under a controlled scheduler that owns every "
          "atomic, mutex, condition variable, thread and the clock. For each small configuration (queue/batch sizes, 2-3 producers, slow exporter, gated exporter, "
          "mid-run flushes, shutdown racing producers) every schedule within the preemption budget is executed and checked: no record reaches the exporter twice, "
-         "per-producer order, a record is lost only if the queue was provably full (counting argument of DESIGN 5/C01), instance counts return to zero, no deadlock "
-         "(producers never wait for the exporter).",
+         "per-producer order, a record is lost only if the queue was provably full (counting argument of DESIGN 5/C01) and never when at most max_queue_size adds were "
+         "not covered by the last completed ForceFlush, instance counts return to zero, no deadlock and no virtual time passing between the call and the return of "
+         "OnEnd / OnEmit, also at a full queue behind a parked or slow exporter (producers never wait for the exporter). The same predicates are also judged on the "
+         "configuration sets written for C02 and C03 (failing exporter, flush + shutdown racers, shutdown timeouts, destruction).",
     note=SCHED_NOTE)
 CLAIMS["C02"] = dict(
     engine="sched",
@@ -35,13 +38,19 @@ CLAIMS["C02"] = dict(
     text="Same engine; configurations with concurrent ForceFlush callers (timeouts zero / short / long / max), concurrent Shutdown callers, slow and failing exporters, "
          "destruction instead of Shutdown and late calls. Oracle on logical timestamps: a ForceFlush that returned true exported everything added before it was called and "
          "invoked the exporter's ForceFlush in between; after a Shutdown returned everything produced before it was exported, the exporter was shut down exactly once, no "
-         "exporter method is entered any more and late calls take no (virtual) time; every execution terminates (deadlock / horizon detection).",
+         "exporter method is entered any more and late calls take no (virtual) time; every execution terminates (deadlock / horizon detection). The exporter's ForceFlush "
+         "must be entered after the last Export of the records that preceded the call. Shutdown is also called with zero / 1 ms / 60 s timeouts behind slow exporters. "
+         "Provider level: two children with a finite flush budget and the slow exporter behind the first or the last child (the answer must be false); simple processors; "
+         "MeterProvider with one or two periodic readers (measurements are distinct powers of two, so an export identifies what it contains). Periodic reader: Shutdown racing "
+         "cycles that outlive export_timeout, flush callers with every timeout kind. The predicates are also judged on the configuration sets written for C01 and C03.",
     note=SCHED_NOTE)
 CLAIMS["C03"] = dict(
     engine="sched",
     technique="stateless model checking of the real code: preemption-bounded exhaustive interleaving exploration with state caching",
     text="Same engine; the harness exporter counts concurrent entries (its Export contains a scheduling point) and records every batch size, on histories that include an "
-         "earlier completed ForceFlush, concurrent flushes and the shutdown drain path: in-flight <= 1 and 1 <= |batch| <= max_export_batch_size in every explored schedule.",
+         "earlier completed ForceFlush, concurrent flushes and the shutdown drain path: in-flight <= 1 and 1 <= |batch| <= max_export_batch_size in every explored schedule; "
+         "also judged on the configuration sets written for C01 and C02 (B == Q, gated / slow / failing exporters, shutdown racers), on simple processors driven from 2-3 threads "
+         "with flush and shutdown callers, and on the periodic reader racing ForceFlush, Shutdown and cycles that outlive export_timeout.",
     note=SCHED_NOTE)
 SEQ_NOTE = ("Bounded exhaustive: every operation sequence / input of the stated alphabet up to the stated depth or mutation bound, executed on the real code under "
             "AddressSanitizer in lock-step with an independent reference model; inputs outside the alphabet and deeper histories are not covered; trusted base: the reference model and the alphabet.")
